@@ -20,7 +20,7 @@ from . import scn_c08
 ID = "C10"
 ENGINE = "P"
 ISOLATE = True  # every run in a forked child of the warmed parent
-RUNS = {"quick": 320, "thorough": 6000}
+RUNS = {"quick": 200, "thorough": 6000}
 BATCH_WALL_CAP = {"quick": 2400, "thorough": 8 * 3600}
 RUN_WALL_CAP = 900
 RECHECK = {"quick": 3, "thorough": 30}
